@@ -93,6 +93,67 @@ impl_dt_bounds! {
     Complex<f64>, Const<1>, Counter; Complex<f64>, Const<2>, Counter; Complex<f64>, Const<3>, Counter; Complex<f64>, Const<4>, Counter; Complex<f64>, Dyn, Counter;
 }
 
+/// Read-only view of the step bounds a built solver holds, through the second cfg(bacon_verif)
+/// hook (clause B7 is judged on what reaches the solver, not on the builder's private fields).
+pub trait SolverBounds {
+    fn solver_bounds(&self) -> Option<(f64, f64)>;
+}
+
+impl<'a, N, D, T, F> SolverBounds for bacon_sci::ivp::EulerSolver<'a, N, D, T, F>
+where
+    N: nalgebra::ComplexField + Copy,
+    D: Dimension,
+    T: Clone,
+    F: bacon_sci::ivp::Derivative<N, D, T> + 'a,
+    DefaultAllocator: Allocator<N, D>,
+{
+    fn solver_bounds(&self) -> Option<(f64, f64)> {
+        None
+    }
+}
+
+impl<'a, N, D, const O: usize, T, F> SolverBounds for bacon_sci::ivp::rk::RungeKuttaSolver<'a, N, D, O, T, F>
+where
+    N: nalgebra::ComplexField<RealField = f64> + Copy,
+    D: Dimension,
+    T: Clone,
+    F: bacon_sci::ivp::Derivative<N, D, T> + 'a,
+    DefaultAllocator: Allocator<N, D>,
+    DefaultAllocator: Allocator<N, Const<O>>,
+    DefaultAllocator: Allocator<N, D, Const<O>>,
+{
+    fn solver_bounds(&self) -> Option<(f64, f64)> {
+        Some(self.verif_dt_bounds())
+    }
+}
+
+impl<'a, N, D, const O: usize, T, F> SolverBounds for bacon_sci::ivp::adams::AdamsSolver<'a, N, D, O, T, F>
+where
+    N: nalgebra::ComplexField<RealField = f64> + Copy,
+    D: Dimension,
+    T: Clone,
+    F: bacon_sci::ivp::Derivative<N, D, T> + 'a,
+    DefaultAllocator: Allocator<N, D>,
+{
+    fn solver_bounds(&self) -> Option<(f64, f64)> {
+        Some(self.verif_dt_bounds())
+    }
+}
+
+impl<'a, N, D, const O: usize, T, F> SolverBounds for bacon_sci::ivp::bdf::BDFSolver<'a, N, D, O, T, F>
+where
+    N: nalgebra::ComplexField<RealField = f64> + Copy,
+    D: Dimension + nalgebra::DimMin<D, Output = D>,
+    T: Clone,
+    F: bacon_sci::ivp::Derivative<N, D, T> + 'a,
+    DefaultAllocator: Allocator<N, D>,
+    DefaultAllocator: Allocator<N, D, D>,
+{
+    fn solver_bounds(&self) -> Option<(f64, f64)> {
+        Some(self.verif_dt_bounds())
+    }
+}
+
 /// A generic computation to be run for one (solver, scalar, dimension) instantiation.
 pub trait Visitor {
     type Out;
@@ -112,7 +173,7 @@ pub trait Visitor {
                 Derivative = DerivBox<N, D, U>,
             > + DtBounds
             + 'static,
-        S::Solver: 'static;
+        S::Solver: SolverBounds + 'static;
 }
 
 macro_rules! by_kind {
@@ -175,6 +236,8 @@ pub trait ErasedIter {
     fn count_all(self: Box<Self>) -> usize;
     /// `it.last()`
     fn last_item(self: Box<Self>) -> Option<Item>;
+    /// (minimum, maximum) step the solver holds; None for Euler
+    fn dt_bounds(&self) -> Option<(f64, f64)>;
 }
 
 fn conv<N: Scalar, D: Dim>(r: Result<(f64, BVector<N, D>), IVPError>) -> Item
@@ -190,7 +253,7 @@ where
 impl<D, T> ErasedIter for IVPIterator<D, T>
 where
     D: Dimension,
-    T: bacon_sci::ivp::IVPStepper<D, Error = IVPError, RealField = f64>,
+    T: bacon_sci::ivp::IVPStepper<D, Error = IVPError, RealField = f64> + SolverBounds,
     T::Field: Scalar,
     DefaultAllocator: Allocator<T::Field, D>,
 {
@@ -222,6 +285,9 @@ where
     }
     fn last_item(self: Box<Self>) -> Option<Item> {
         (*self).last().map(conv::<T::Field, D>)
+    }
+    fn dt_bounds(&self) -> Option<(f64, f64)> {
+        self.verif_solver().solver_bounds()
     }
 }
 
@@ -283,7 +349,7 @@ where
             Derivative = DerivBox<N, D, U>,
         > + DtBounds
         + 'static,
-    S::Solver: 'static,
+    S::Solver: SolverBounds + 'static,
 {
     fn apply(&mut self, op: &BOp) -> Outcome {
         let b = match self.b.take() {
@@ -362,7 +428,7 @@ impl<'a> Visitor for Construct<'a> {
                 Derivative = DerivBox<N, D, U>,
             > + DtBounds
             + 'static,
-        S::Solver: 'static,
+        S::Solver: SolverBounds + 'static,
     {
         let ctor = *self.ctor;
         let r = catch_unwind(AssertUnwindSafe(move || -> Result<S, IVPError> {
